@@ -27,6 +27,7 @@ type c09Case struct {
 	Kinds    int // handler kinds bitmask (Get, Call, Auth, New, Access) when Unset
 	Res, Acc []string
 	Queue    string // "default" | "none"
+	Root     bool   // the only handler is registered on the empty pattern (the service's own name)
 }
 
 func (c c09Case) String() string {
@@ -84,7 +85,11 @@ func c09Run(c c09Case) (o c09Obs, problems []string) {
 		if k&16 != 0 {
 			opts = append(opts, res.Access(res.AccessGranted))
 		}
-		s.Handle("a", opts...)
+		if c.Root {
+			s.Handle("", opts...)
+		} else {
+			s.Handle("a", opts...)
+		}
 		if !c.Unset {
 			s.SetOwnedResources(c.Res, c.Acc)
 		}
@@ -275,6 +280,9 @@ func runC09(c *seqCtx) {
 		for _, q := range []string{"default", "none"} {
 			for k := 0; k < 32; k++ {
 				run(c09Case{Name: name, Unset: true, Kinds: k, Queue: q})
+				if name != "" {
+					run(c09Case{Name: name, Unset: true, Kinds: k, Queue: q, Root: true})
+				}
 			}
 			for _, l := range lists {
 				if len(l) == 0 {
